@@ -29,6 +29,18 @@ Theorem C19_filter_two_valued : forall s : list Z,
 Proof. exact filter_check_values. Qed.
 Print Assumptions C19_filter_two_valued.
 
+(* the grammar of 1. is the one the matching theorems of C11 assume of a filter (Matcher/TrieSpec.v
+   valid_filter, written independently: other splitter, other per-level test): every filter that
+   subscribe() accepts is covered by C11_match_spec / C11_trie_lookup *)
+From PahoV Require Import Matcher.TrieSpec Matcher.FilterGrammarTie.
+Theorem C19_accepted_filters_are_C11_filters : forall s : list Z,
+  filter_check s = OK -> valid_filter s = true.
+Proof.
+  intros s H. apply filter_grammar in H. rewrite filter_grammars_agree in H.
+  apply andb_true_iff in H. exact (proj1 H).
+Qed.
+Print Assumptions C19_accepted_filters_are_C11_filters.
+
 (* publish topics: no wildcard character, at most 65535 bytes *)
 Theorem C19_topic_grammar : forall t : list Z,
   topic_check t = Ok 0 <-> ~ In 43 t /\ ~ In 35 t /\ blen t <= 65535.
